@@ -680,9 +680,11 @@ class Exec(Interp):
 
         def post_body():
             env[idxname] = env[idxname] + 1
-        self.cut_loop(node, spec, k, guard, pre_body, post_body, extra_havoc=[idxname])
+        lo_z = to_z3(lo)
+        self.cut_loop(node, spec, k, guard, pre_body, post_body, extra_havoc=[idxname],
+                      auto_inv=lambda: env[idxname] >= lo_z)
 
-    def cut_loop(self, node, spec, k, guard, pre_body=None, post_body=None, extra_havoc=()):
+    def cut_loop(self, node, spec, k, guard, pre_body=None, post_body=None, extra_havoc=(), auto_inv=None):
         env = self.frame.env
         module = self.frame.module
         lab = spec.label or ("loop%d" % k)
@@ -752,6 +754,8 @@ class Exec(Interp):
         for m in spec.modifies:
             self.havoc_lvalue(m, env, module)
         # 3. assume the invariant at the loop head
+        if auto_inv is not None:
+            self.assume(auto_inv())        # a range index never goes below its start (holds by construction)
         for f in inv_formula():
             self.assume(f)
         g = guard()
